@@ -141,10 +141,11 @@ Print Assumptions C19_gen_write_rune.
    (grow(MinRead), the cut back, the window, the count added, when it stops), the total, the error handed on (EOF
    becomes nil), the panics (errNegativeRead, ErrTooLarge), and the bytes, offset, capacity and lastRead afterwards
    are those of the model's c_readfrom.  The loop of the source is run with fuel length(script)+1, which the
-   theorem shows to suffice. *)
-Theorem C19_gen_read_from : forall rup maxalloc nil (d sp : bytes) o l script,
+   theorem shows to suffice.  [errors_is] stands for errors.Is, about which nothing is assumed: the source compares the
+   reader's error with io.EOF by ==, and the result does not depend on it. *)
+Theorem C19_gen_read_from : forall rup maxalloc nil errors_is (d sp : bytes) o l script,
   (forall c, c <= rup c) -> 0 <= o <= Z.of_nat (length d) ->
-  wview (bview_rf nil (Buffers.buf_read_from (d, sp) o l (fun _ => nil) (grow_slice_oracle rup maxalloc) tt script))
+  wview (bview_rf nil (Buffers.buf_read_from (d, sp) o l (fun _ => nil) (grow_slice_oracle rup maxalloc) errors_is tt script))
   = wview (cstep rup maxalloc (abs_pc nil ((d, sp), o, l)) (OReadFrom script)).
 Proof. exact GenBufWP.gen_buf_read_from. Qed.
 Print Assumptions C19_gen_read_from.
